@@ -200,6 +200,16 @@ pub fn eval(c: &Case) -> Vec<(String, String)> {
     }
     // --- RX1 data rate
     let off = o.before.rx1_dr_offset;
+    // the offset in force is the negotiated one: a RXParamSetupReq whose three fields are all valid for the
+    // region must have been applied
+    if let Some((dl, f)) = c.rxparam {
+        let (want_off, rx2dr) = ((dl >> 4) & 7, dl & 0x0F);
+        let (lo, hi) = rr::band(region);
+        let (_, def_dr) = rr::rx2_default(region);
+        if want_off <= rr::max_rx1_offset(region) && rx2dr == def_dr && f >= lo && f <= hi && off != want_off {
+            v.push((format!("C10|{front}|valid-rx1-offset-not-in-force|{rk}"), format!("RXParamSetupReq with RX1DROffset {want_off} (regional maximum {}), default RX2 data rate and an in-band frequency: offset in force is {off}", rr::max_rx1_offset(region))));
+        }
+    }
     let got1 = rr::dr_index(region, o.rx[0].sf, o.rx[0].bw);
     let mut want1: Vec<u8> = vec![];
     for u in &up_drs {
